@@ -288,14 +288,16 @@ def fam_api_native_grain(rng, idx, gprefix):
     pre = "G" if gprefix else "#"
     gas = [(["H", "H"], ["H2"], 100), (["C", "O"], ["CO"], 100), (["O", "H2"], ["H2O"], 100), (["CO", "CR"], ["C", "O"], 101),
            (["H2O", "Photon"], ["O", "H2"], 102), (["O", "O"], ["O2"], 100)]
-    model = rng.choice(["hh93", "rr07", "rr07x"])
+    # the variant is tied to the index, so that every library has hh93 networks with two grain
+    # charge states, whatever the random stream does
+    model = ["hh93", "rr07x", "hh93", "rr07", "hh93"][idx % 5]
     ice = [(["CO"], [pre + "CO"], 200), (["H2O"], [pre + "H2O"], 200), (["O2"], [pre + "O2"], 200)]
     if model != "rr07":
         ice += [([pre + "CO"], ["CO"], 201), ([pre + "H2O"], ["H2O"], 201), ([pre + "O2"], ["O2"], 201)]
     rng.shuffle(gas)
     rng.shuffle(ice)
     reacs = gas[: rng.randint(2, 5)] + ice[: rng.randint(2, 6)]
-    if model == "hh93" and not gprefix and rng.random() < 0.7:
+    if model == "hh93" and not gprefix:
         # charged and neutral grains in one grain group: electron capture and cation recombination
         reacs += [(["e-", "GRAIN0"], ["GRAIN-"], 221), (["C+", "GRAIN-"], ["C", "GRAIN0"], 220)]
         if rng.random() < 0.5:
@@ -566,6 +568,36 @@ def fam_random(rng, idx):
     return {"id": f"{fam}-{idx}", "family": fam, "entry": "api", "name": "simproj", "files": files, "net": net, "steps": steps}
 
 
+def pinned_descriptions():
+    """Two fixed descriptions (no random choices) that carry the features earlier misses were traced
+    to and that the random families only have with some probability."""
+    kida = [
+        "C          CH                     H          C2                                            2.400e-10  0.000e+00  0.000e+00 2.00e+00 1.00e+02 logn  4     10    300  3    10 1  1",
+        "H          C2                     C          CH                                            4.670e-10  5.000e-01  3.040e+04 2.00e+00 0.00e+00 logn  4     10    800  3    11 1  1",
+        "C          O                      CO                                                       1.100e-10  0.000e+00  0.000e+00 2.00e+00 0.00e+00 logn  4     10  41000  3    12 1  1",
+        "CO         CR                     C          O                                             5.000e+00  0.000e+00  0.000e+00 2.00e+00 0.00e+00 logn  1     10  41000  1    13 1  1",
+        "H          H                      H2                                                       1.000e-17  5.000e-01  0.000e+00 2.00e+00 0.00e+00 logn  4     10  41000  3    14 1  1",
+    ]
+    r_dense = {"s": "render", "solver": "cvode", "method": "dense", "device": "cpu", "pattern": False}
+    p1 = {"id": "pinned-edit-chain-0", "family": "pinned-edit-chain", "entry": "api", "name": "simproj",
+          "files": {"net.kida": "\n".join(kida) + "\n"},
+          "net": dict(MIXED, required_species=["He", "He+"], ode_modifier={"H2": {"factors": ["-1.0e-17 * nH"], "reactants": [["H"]]}}),
+          "steps": [{"s": "new"}, {"s": "add_file", "file": "net.kida", "fmt": "kida"}, {"s": "touch", "where": "C2"}, dict(r_dense),
+                    {"s": "rm_idx", "i": 0}, dict(r_dense, inplace=True),
+                    {"s": "add_inst", "R": ["CH", "O"], "P": ["CO", "H"], "pseudo": [], "alpha": 4.4e-11, "rtype": 100, "idx": 15},
+                    {"s": "export", "solver": "cvode", "method": "sparse", "device": "cpu"},
+                    {"s": "export", "solver": "cvode", "method": "sparse", "device": "cpu"}]}
+    steps = [{"s": "new"}]
+    for i, (R, P, t) in enumerate([(["H", "H"], ["H2"], 100), (["C", "O"], ["CO"], 100), (["O", "H2"], ["H2O"], 100), (["O", "O"], ["O2"], 100)]):
+        steps.append({"s": "add_inst", "R": R, "P": P, "pseudo": [], "alpha": round((i + 1) * 1.3e-10, 13), "rtype": t, "idx": -1})
+    steps += [{"s": "render", "solver": "cvode", "method": "sparse", "device": "cpu", "pattern": True}, {"s": "rm_idx", "i": 0},
+              {"s": "render", "solver": "cvode", "method": "sparse", "device": "cpu", "pattern": True, "inplace": True},
+              {"s": "to_code", "solver": "odeint", "method": "rosenbrock4", "device": "cpu"}]
+    p2 = {"id": "pinned-noindex-0", "family": "pinned-noindex", "entry": "api", "name": "simproj", "files": {},
+          "net": dict(MIXED, rate_modifier={"2": "2.5e-10 * zeta"}), "steps": steps}
+    return [p1, p2]
+
+
 def build_library(seed, tier):
     """~50 descriptions (quick) drawn deterministically from the families."""
     rng = K.rng_for(seed, "C17", 0, "library")
@@ -594,6 +626,7 @@ def build_library(seed, tier):
     lib.append(fam_empty(rng, 1))
     for i in range(14 if tier == "quick" else 90):
         lib.append(fam_random(rng, i))
+    lib += pinned_descriptions()
     # twins for the "independent of how often it is rendered" clause: the same description with
     # every rendering except the last one left out must give the same last rendering.  Twins are
     # only rendered as references (solo); they do not take part in the interleaved runs.
@@ -607,3 +640,66 @@ def build_library(seed, tier):
 
 
 RENDER_KINDS = ("render", "to_code", "cli_render", "export")
+
+
+def features(d):
+    """Which collision-relevant features a description has (reported per library in the evidence)."""
+    import json
+
+    txt = json.dumps(d.get("files", {})) + json.dumps(d["steps"])
+    n, c = d["net"], d.get("cli", {})
+    f = set()
+    if "GRAIN0" in txt and "GRAIN-" in txt and n.get("grain_model"):
+        f.add("two_grain_charge_states")
+    if n.get("grain_model"):
+        f.add("grain_model_" + n["grain_model"])
+    if n.get("cooling"):
+        f.add("cooling")
+    if c.get("replacement"):
+        f.add("replacement_table")
+    if d["entry"] == "cli" and n.get("elements") and any(x.isupper() and len(x) > 1 for x in n["elements"]) and not c.get("replacement"):
+        f.add("upper_case_lists_without_replacement")
+    if c.get("binding_energy"):
+        f.add("cli_binding_energy")
+    if c.get("photon_yield"):
+        f.add("cli_photon_yield")
+    if c.get("loads"):
+        f.add("cli_loads_custom_format")
+    if len(n.get("required_species") or []) >= 2:
+        f.add("two_isolated_required_species")
+    if n.get("allowed_species"):
+        f.add("allowed_species")
+    if n.get("rate_modifier"):
+        f.add("rate_modifier")
+    if n.get("ode_modifier"):
+        f.add("ode_modifier")
+    if n.get("shielding"):
+        f.add("shielding")
+    if (n.get("species_kwargs") or {}).get("surface_prefix") == "G":
+        f.add("surface_prefix_G")
+    if "@var" in txt or "@common" in txt:
+        f.add("krome_var_common")
+    if "@format" in txt:
+        f.add("krome_format_line")
+    kinds = [st["s"] for st in d["steps"]]
+    rk = [i for i, k in enumerate(kinds) if k in RENDER_KINDS]
+    if len(rk) >= 2:
+        f.add("several_renderings")
+        if any(k in ("rm_idx", "add_inst", "set_allowed") for k in kinds[rk[0]:rk[-1]]):
+            f.add("edit_between_renderings")
+    if any(st.get("inplace") for st in d["steps"]):
+        f.add("in_place_rerender_after_edit")
+    for k in ("export", "to_code", "cli_render", "touch", "add_str", "set_eb"):
+        if k in kinds:
+            f.add("step_" + k)
+    if len(d.get("files", {})) >= 2 and d["entry"] == "api" and len({v.split(".")[-1] for v in d["files"]}) >= 2:
+        f.add("two_text_formats_in_one_network")
+    if all(st.get("idx", 0) == -1 for st in d["steps"] if st["s"] == "add_inst") and "add_inst" in kinds and not d.get("files"):
+        f.add("reactions_without_file_index")
+    return f
+
+
+ESSENTIAL_FEATURES = ["two_grain_charge_states", "cooling", "replacement_table", "upper_case_lists_without_replacement",
+                      "cli_binding_energy", "cli_loads_custom_format", "two_isolated_required_species", "krome_var_common",
+                      "krome_format_line", "edit_between_renderings", "in_place_rerender_after_edit", "step_export",
+                      "surface_prefix_G", "reactions_without_file_index", "ode_modifier", "rate_modifier"]
